@@ -5,6 +5,10 @@ anchored methods of PowerManagingActor, so the verdict depends on what the code 
 local names, statement shapes, keyword vs positional arguments or whether a piece lives in a
 private helper (helpers are interpreted, the other anchors are recorded as opaque events):
 
+The actor's methods are bound by *role* (`_c11_util.resolve_roles`: who calls them / what they
+reach), the historical names below are only hints, so a renamed anchor - or the calculator inlined
+into the sending method ("combined mode") - is still analysed; exit 2 only if no method plays a role.
+
 * _calculate_target_power over: proposal kind x stored target present/absent per group x each
   `calculate_target_power` call returning {a new target, None = unchanged}.  Every abstract path
   is checked for C11.SUM (returned power == sum of both groups' *current* targets) and C11.SHIFT
@@ -126,6 +130,8 @@ def check_calc(run: Run, prog: Program, roles: Roles) -> None:
         expected = {v.name: 1 for v in stored.values() if v is not None}
         got = lin_of(out.value)
         ret_node = st["ret_node"] if st["ret_node"] is not None else fn.node
+        if combined:  # the construct is the request that carries the power
+            ret_node = next((e["node"] for e in st["events"] if e["kind"] == "request"), ret_node)
         if got is None:
             run.violation("C11.SUM", fn.qual, "return", f"unrecognised return value {out.value!r}",
                           node=ret_node, file=fn.file)
